@@ -61,6 +61,9 @@ func ZipOf(files map[string]string) []byte {
 // at least three members here (services, vehicles with id, fallback routes of an alert, elevator groups).
 var Inputs = map[string][]byte{}
 
+// StaticFiles holds the CSV text of the static inputs by member name.
+var StaticFiles = map[string]map[string]string{}
+
 func init() {
 	stop := func(s string) *gtfsrt.EntitySelector { return &gtfsrt.EntitySelector{StopId: sp(s)} }
 	Inputs["elev"] = feed(1700000000,
@@ -116,7 +119,7 @@ func init() {
 		&gtfsrt.FeedEntity{Id: sp("2"), Vehicle: &gtfsrt.VehiclePosition{Vehicle: &gtfsrt.VehicleDescriptor{Id: sp("V1")}, Trip: &gtfsrt.TripDescriptor{TripId: sp("t1"), RouteId: sp("R1")}}},
 		alert("a", &gtfsrt.EntitySelector{RouteId: sp("R1")}))
 	cal := "service_id,monday,tuesday,wednesday,thursday,friday,saturday,sunday,start_date,end_date\n"
-	Inputs["static-a"] = ZipOf(map[string]string{
+	StaticFiles["static-a"] = map[string]string{
 		"agency.txt":         "agency_id,agency_name,agency_url,agency_timezone\nb,B,http://b,America/New_York\na,A,http://a,UTC\nc,C,http://c,Asia/Kolkata\n",
 		"routes.txt":         "route_id,agency_id,route_type\nr2,a,1\nr1,b,3\nr3,c,2\n",
 		"stops.txt":          "stop_id,stop_name,parent_station,location_type\nst,Station,,1\np1,P1,st,0\np2,P2,st,\nx,X,,\n",
@@ -127,15 +130,18 @@ func init() {
 		"stop_times.txt":     "trip_id,stop_id,stop_sequence,arrival_time,departure_time\nt1,p1,2,8:00:00,8:00:30\nt2,x,1,9:00:00,9:00:00\nt1,p2,1,7:50:00,7:51:00\nt3,x,5,25:00:00,25:00:00\n",
 		"transfers.txt":      "from_stop_id,to_stop_id,transfer_type\np1,p2,2\np2,x,0\n",
 		"frequencies.txt":    "trip_id,start_time,end_time,headway_secs\nt2,6:00:00,9:00:00,600\nt2,9:00:00,12:00:00,1200\n",
-	})
-	Inputs["static-b"] = ZipOf(map[string]string{
+	}
+	StaticFiles["static-b"] = map[string]string{
 		"agency.txt":     "agency_name,agency_url,agency_timezone\nOnly,http://o,Pacific/Auckland\n",
 		"routes.txt":     "route_id,route_type,route_color\nq,0,\n",
 		"stops.txt":      "stop_id,wheelchair_boarding,parent_station,location_type\nS,1,,1\nc1,,S,\nc2,2,S,\n",
 		"calendar.txt":   cal + "d1,1,0,0,0,0,0,0,20240101,20240201\nd3,0,0,1,0,0,0,0,20240101,20240201\nd2,0,1,0,0,0,0,0,20240101,20240201\n",
 		"trips.txt":      "route_id,service_id,trip_id\nq,d2,k1\nq,d1,k2\n",
 		"stop_times.txt": "trip_id,stop_id,stop_sequence,arrival_time,departure_time\nk1,c1,1,1:00:00,\nk2,c2,1,,2:00:00\nk1,c2,2,1:10:00,1:11:00\n",
-	})
+	}
+	for name, files := range StaticFiles {
+		Inputs[name] = ZipOf(files)
+	}
 }
 
 // Obj is a shared options/extension object of a session.
